@@ -54,6 +54,58 @@ theorem gen_dispatch_root_keys :
     (dispatch.getD 0 default).keys =
       [.SELECT, .DELETE, .SHOW, .CREATE, .DROP, .EXPLAIN, .GRANT, .REVOKE, .ALTER, .SET, .KILL] := by decide
 
+/-! ## one round of `ParseTree.Parse` over token sequences -/
+
+/-- The next significant token names a subtree: descend, consuming the token. -/
+theorem dispatch_step_sub (fuel it idx k j : Nat) (s : PState) (lx : Lexeme) (hn : s.n = k + 1)
+    (hb : s.buf[k]? = some lx) (ht : lx.tok ≠ .BOUNDPARAM) (hw : lx.tok ≠ .WS) (hc : lx.tok ≠ .COMMENT)
+    (hsub : lookupTok lx.tok (dispatch.getD idx default).subs = some j) :
+    (dispatchLoop fuel (it + 1) idx).run s = (dispatchLoop fuel it j).run { s with n := k } := by
+  conv => lhs; unfold dispatchLoop
+  rw [P.run_bind _ _ s lx { s with n := k } (scanIW_buffered s k lx hn hb ht hw hc)]
+  simp only [hsub]
+
+/-- The next significant token names a handler of this subtree: the handler runs on the rest. -/
+theorem dispatch_step_handler (fuel it idx k : Nat) (h : Handler) (s : PState) (lx : Lexeme) (hn : s.n = k + 1)
+    (hb : s.buf[k]? = some lx) (ht : lx.tok ≠ .BOUNDPARAM) (hw : lx.tok ≠ .WS) (hc : lx.tok ≠ .COMMENT)
+    (hsub : lookupTok lx.tok (dispatch.getD idx default).subs = none)
+    (hh : lookupTok lx.tok (dispatch.getD idx default).handlers = some h) :
+    (dispatchLoop fuel (it + 1) idx).run s = (runHandler fuel h).run { s with n := k } := by
+  conv => lhs; unfold dispatchLoop
+  rw [P.run_bind _ _ s lx { s with n := k } (scanIW_buffered s k lx hn hb ht hw hc)]
+  simp only [hsub, hh]
+
+/-- Any other token: the error names the token found and lists `Keys` of the subtree reached, in
+registration order, at the token's position. -/
+theorem dispatch_step_error (fuel it idx k : Nat) (s : PState) (lx : Lexeme) (hn : s.n = k + 1)
+    (hb : s.buf[k]? = some lx) (ht : lx.tok ≠ .BOUNDPARAM) (hw : lx.tok ≠ .WS) (hc : lx.tok ≠ .COMMENT)
+    (hsub : lookupTok lx.tok (dispatch.getD idx default).subs = none)
+    (hh : lookupTok lx.tok (dispatch.getD idx default).handlers = none) :
+    (dispatchLoop fuel (it + 1) idx).run s =
+      .error (.err (.found (tokstr lx.tok lx.lit) ((dispatch.getD idx default).keys.map Token.str) lx.pos)) := by
+  conv => lhs; unfold dispatchLoop
+  rw [P.run_bind _ _ s lx { s with n := k } (scanIW_buffered s k lx hn hb ht hw hc)]
+  simp only [hsub, hh]
+  rfl
+
+/-- `SHOW DATABASES` as two pushed-back tokens. -/
+def exShowState (second : Lexeme) : PState :=
+  { r := Cursor.ofRunes [], n := 2, buf := [second, ⟨.SHOW, ⟨0, 0⟩, []⟩] }
+
+/-- Non-vacuity: the token path SHOW · DATABASES selects `parseShowDatabasesStatement`. -/
+example : ∃ s', (parseStatement 10).run (exShowState ⟨.DATABASES, ⟨0, 5⟩, []⟩) = .ok (.showDatabases, s') := by
+  refine ⟨{ exShowState ⟨.DATABASES, ⟨0, 5⟩, []⟩ with n := 0 }, ?_⟩
+  refine (dispatch_step_sub 10 20 0 1 1 _ ⟨.SHOW, ⟨0, 0⟩, []⟩ rfl rfl (by decide) (by decide) (by decide) (by decide)).trans ?_
+  refine (dispatch_step_handler 10 19 1 0 .parseShowDatabasesStatement _ ⟨.DATABASES, ⟨0, 5⟩, []⟩ rfl rfl (by decide) (by decide)
+    (by decide) (by decide) (by decide)).trans ?_
+  rfl
+
+/-- Non-vacuity: `SHOW x` is rejected with the sixteen keywords that may follow SHOW. -/
+example : (parseStatement 10).run (exShowState ⟨.IDENT, ⟨0, 5⟩, ['x']⟩) =
+    .error (.err (.found ['x'] ((dispatch.getD 1 default).keys.map Token.str) ⟨0, 5⟩)) := by
+  refine (dispatch_step_sub 10 20 0 1 1 _ ⟨.SHOW, ⟨0, 0⟩, []⟩ rfl rfl (by decide) (by decide) (by decide) (by decide)).trans ?_
+  exact dispatch_step_error 10 19 1 0 _ ⟨.IDENT, ⟨0, 5⟩, ['x']⟩ rfl rfl (by decide) (by decide) (by decide) (by decide) (by decide)
+
 /-! ## integers in LIMIT-like positions -/
 
 theorem allDigits_natDigits (n : Nat) : allDigits (natDigits n) = true := by
